@@ -1584,6 +1584,8 @@ class FnTranslator:
         self.budget(node)
         if isinstance(node, ast.UnaryOp) and isinstance(node.op, ast.Not):
             b, c = self.tr_cond(node.operand, env)
+            if c in ('(true = true)', '(false = true)'):       # statically decided
+                return b, '(false = true)' if c == '(true = true)' else '(true = true)'
             return b, '(¬ %s)' % c
         if isinstance(node, ast.BoolOp) and len(node.values) >= 2:
             nar = self.narrowing(node.values[0], env)
